@@ -184,6 +184,10 @@ Theorem C16_grid_neighbors_nodup_generic : forall dims v,
 Proof. exact grid_neighbors_nodup_generic. Qed.
 Print Assumptions C16_grid_neighbors_nodup_generic.
 
+Theorem C16_grid_degree_bound : forall dims v, (length (grid_neighbors dims v) <= 2 * length dims)%nat.
+Proof. exact grid_degree_bound. Qed.
+Print Assumptions C16_grid_degree_bound.
+
 (* the statement of C16_grid_neighbors_spec_2d/3d for every D, and with it the two cut theorems:
    the Grid's edge cut is the number of lattice edges joining different parts, its lambda cut is
    the definition over the lattice graph -- in every dimension *)
